@@ -77,8 +77,10 @@ impl Vector {
             return false;
         }
         for i in 0..self.len() {
-            // `rel_diff` compares magnitudes only: values of opposite sign are never close
-            if self[i] * other[i] < 0. || rel_diff(self[i], other[i]) > tol {
+            // `rel_diff` compares magnitudes only: non-zero values of opposite sign are never close
+            // (tested on the signs themselves: the product of two tiny values underflows to zero)
+            let (a, b) = (self[i], other[i]);
+            if (a < 0. && b > 0.) || (a > 0. && b < 0.) || rel_diff(a, b) > tol {
                 return false;
             }
         }
